@@ -16,7 +16,7 @@ import (
 // syncOps lists, sorted and with multiplicity, the synchronisation operations in a function body: calls of the usual methods of
 // sync.Mutex / RWMutex / WaitGroup / Once / Cond, channel sends, receives, selects, range-over-channel cannot be told from syntax
 // alone and is not used in these functions.
-func syncOps(fd *ast.FuncDecl) string {
+func syncOps(fd *ast.FuncDecl, roles map[string]string) string {
 	var ops []string
 	names := map[string]bool{"Lock": true, "Unlock": true, "RLock": true, "RUnlock": true, "Wait": true, "Add": true, "Done": true,
 		"Do": true, "Signal": true, "Broadcast": true, "Acquire": true, "Release": true, "TryLock": true}
@@ -24,13 +24,13 @@ func syncOps(fd *ast.FuncDecl) string {
 		switch x := n.(type) {
 		case *ast.CallExpr:
 			if sel, ok := x.Fun.(*ast.SelectorExpr); ok && names[sel.Sel.Name] && !strings.Contains(exprText(sel.X), "time.") {
-				ops = append(ops, exprText(sel.X)+"."+sel.Sel.Name)
+				ops = append(ops, roleName(roles, exprText(sel.X))+"."+sel.Sel.Name)
 			}
 		case *ast.SendStmt:
-			ops = append(ops, "send:"+exprText(x.Chan))
+			ops = append(ops, "send:"+roleName(roles, exprText(x.Chan)))
 		case *ast.UnaryExpr:
 			if x.Op == token.ARROW {
-				ops = append(ops, "recv:"+exprText(x.X))
+				ops = append(ops, "recv:"+roleName(roles, exprText(x.X)))
 			}
 		case *ast.SelectStmt:
 			ops = append(ops, "select")
@@ -69,7 +69,13 @@ func init() {
 			{"internal/socketace", "ClientConnection", "startTls", "sync_client_start_tls"},
 		} {
 			fd := findFunc(x.dir, x.recv, x.fn)
-			f.raw("Definition " + x.name + " : string := \"" + strings.Replace(syncOps(fd), "\"", "\"\"", -1) + "\". (* " + pos(fd) + " *)\n")
+			roles := map[string]string{}
+			if x.fn == "PipeData" {
+				roles = pipeRoles(fd)
+			} else if x.fn == "pipeData" && len(fd.Type.Params.List) > 0 && len(fd.Type.Params.List[0].Names) > 0 {
+				roles[fd.Type.Params.List[0].Names[0].Name] = "errs" // the report channel is the first parameter
+			}
+			f.raw("Definition " + x.name + " : string := \"" + strings.Replace(syncOps(fd, roles), "\"", "\"\"", -1) + "\". (* " + pos(fd) + " *)\n")
 		}
 		return f
 	})
